@@ -125,8 +125,8 @@ def is_empty_path(res) -> bool:
         if e["kind"] != "decision" or e.get("outcome") is None or e.get("forced"):
             continue
         k = e.get("key") or ""
-        if not _EMPTY_KEY.match(k) or "(&:" in k:
-            continue
+        if not _EMPTY_KEY.match(k) or "(&:" in k or k.startswith("nonempty?~") or "len~[" in k:
+            continue  # (a filtered selection being empty is not the collection being empty)
         if "._transform." not in e["function"]:
             continue  # an early return of the entry point itself is not "nothing to do": it skips stages that do not depend on that collection
         truth = bool(e["outcome"]) ^ bool(e.get("key_neg"))
@@ -142,7 +142,7 @@ def empty_atoms(res) -> set:
         if e["kind"] != "decision" or e.get("outcome") is None:
             continue
         k = e.get("key") or ""
-        if not k.startswith("nonempty?") or "(&:" in k:
+        if not k.startswith("nonempty?") or "(&:" in k or k.startswith("nonempty?~"):
             continue
         if not (bool(e["outcome"]) ^ bool(e.get("key_neg"))):
             txt = k[len("nonempty?"):]
